@@ -483,7 +483,12 @@ def check_bigbatch(ctx, case):
   N = case["N"]
   Xq = rs.uniform(-0.2, 1.2, size=(N, dim))
   Xtr = numpy.array(base["X"], dtype=float).reshape(-1, dim)
-  Xq[rs.choice(N, size=min(N, 40), replace=False)] = Xtr[rs.randint(len(Xtr), size=min(N, 40))]  # some on training points
+  def _uses_c0(cov):
+    return cov.get("kind") == "c0" or cov.get("phys") == "c0" or cov.get("task") == "c0"
+  if not any(_uses_c0(c["cov"]) for c in comps):
+    Xq[rs.choice(N, size=min(N, 40), replace=False)] = Xtr[rs.randint(len(Xtr), size=min(N, 40))]  # some on training points
+  # (not for exp(-r) kernels: at a coincident point r = sqrt(r^2) turns the rounding of the expanded squared distance, 0 in one
+  #  BLAS blocking and 1e-16 in another, into 1e-8 - a property of that kernel at r = 0 which C03 accounts for, not a batch effect)
   if comps[0]["cov"]["kind"] == "multitask":
     Xq[:, -1] = rs.choice([0.1, 0.3, 1.0], size=N)
   cond = 1.0
